@@ -13,6 +13,13 @@ def pub(c):
     return {k: v for k, v in c.items() if k != "tree"}
 
 
+def cf(c):
+    """Short description of a case for messages."""
+    if c["op"].startswith("build_"):
+        return "%s %s(%s) then %s" % (c.get("m") or c.get("p"), c["ctor"], c["frame"], c["ops"])
+    return c["frame"]
+
+
 # ------------------------------------------------------------------------------------------------
 # generation
 def call_frames(rng, mname):
@@ -210,6 +217,127 @@ def gen_cases(ck):
     return cases
 
 
+BUILD_METHODS = {
+    "meth": [eg.O(("method", "org.example.M.Ping")),
+             eg.O(("method", "org.example.M.Get"), ("parameters", eg.O(("id", 4)))),
+             eg.O(("method", "org.example.M.Put"), ("parameters", eg.O(("name", "q\"n"), ("value", -5), ("note", None))))],
+    "methb": [eg.O(("method", "org.example.M.Put"), ("parameters", eg.O(("name", "x"), ("value", 7)))),
+              eg.O(("method", "org.example.M.Ping"))],
+    "meths": [eg.O(("method", "a.B"), ("parameters", eg.O(("id", 1), ("name", "n")))),
+              eg.O(("method", "a.B"), ("parameters", None))],
+    "value": [eg.O(("zeta", 1), ("alpha", eg.O(("b", 2), ("a", [1])))), eg.O(), 5],
+    "vsmethod": [eg.O(("method", "org.varlink.service.GetInfo")),
+                 eg.O(("method", "org.varlink.service.GetInterfaceDescription"), ("parameters", eg.O(("interface", "org.x"))))],
+}
+SETTER_OPS = [(f, b) for f in FLAGS for b in (True, False)]
+
+
+def sequences(alphabet, maxlen):
+    out = [[]]
+    level = [[]]
+    for _ in range(maxlen):
+        level = [s + [a] for s in level for a in alphabet]
+        out += level
+    return out
+
+
+def gen_build_cases(ck):
+    """Calls and replies made with the public constructors (new, From, Into) and setters applied in
+    every order: the wire image must depend on the logical value only."""
+    import itertools
+    rng = ck.rng
+    quick = ck.tier == "quick"
+    out = []
+
+    def add(op, tree, ctor, ops, **kw):
+        c = {"id": 1000000 + len(out), "op": op, "tree": tree, "frame": None if tree is eg.ABSENT else eg.jtext(tree),
+             "ctor": ctor, "ops": [list(o) if isinstance(o, tuple) else o for o in ops],
+             "tags": {"class": op}}
+        c.update(kw)
+        out.append(c)
+
+    ctors = ("new", "from", "into")
+    k = 0
+    for mname, values in BUILD_METHODS.items():
+        for vi, tree in enumerate(values):
+            if (mname == "meth" and vi == 1) or not quick:
+                seqs = sequences(SETTER_OPS, 3 if quick else 4)           # every sequence of setters
+            else:
+                # every order of the three setters x every choice of values, plus longer random ones
+                seqs = [list(zip(perm, vals)) for perm in itertools.permutations(FLAGS)
+                        for vals in itertools.product((True, False), repeat=3)]
+                seqs += [[rng.choice(SETTER_OPS) for _ in range(rng.randrange(2, 6))] for _ in range(30)]
+            for ops in seqs:
+                add("build_call", tree, ctors[k % 3], ops, m=mname)
+                k += 1
+    rctors = ("new_some", "from", "into")
+    for pname in eg.PTYPES:
+        vals = eg.P_GOOD[pname][:2]
+        for vi, v in enumerate(vals):
+            for ci, ctor in enumerate(rctors):
+                for ops in sequences((True, False, None), 3 if (ctor != "new_some" or not quick) else 2):
+                    add("build_reply", v, ctor, ops, p=pname)
+        for ops in sequences((True, False, None), 3):
+            add("build_reply", eg.ABSENT, "new_none", ops, p=pname)
+    return out
+
+
+def last_flag(ops, f):
+    v = False
+    for g, b in ops:
+        if g == f:
+            v = b
+    return v
+
+
+def check_built(ck, bcases, bresults):
+    """Python-level statement of the property for built values; returns counters."""
+    n = 0
+    images = {}
+    for c, r in zip(bcases, bresults):
+        if r.get("panic") or r.get("crash"):
+            ck.violation("building / sending a value panicked", {"case": pub(c), "impl": r}, tag="bpanic%d" % c["id"])
+            continue
+        if not r.get("built"):
+            continue
+        n += 1
+        msg = None
+        if c["op"] == "build_call":
+            want = [last_flag(c["ops"], f) for f in FLAGS]
+            logical = (c["m"], c["frame"], tuple(want))
+            if r["get"] != want:
+                msg = "after %s + setters %s the flags (oneway, more, upgrade) read %s, expected %s (each setter sets its own flag only)" % (
+                    c["ctor"], c["ops"], r["get"], want)
+            elif not r.get("same_meth"):
+                msg = "the method of a built call is not the method it was made of"
+            elif r.get("enc"):
+                value = {"r": [r["meth"]] + [{"b": b} for b in want]}
+                msg = check_call_encoding(value, r["enc"], c["tree"])
+        else:
+            want = c["ops"][-1] if c["ops"] else None
+            logical = (c["p"], c["frame"], c["ctor"] == "new_none", want)
+            got = r["continues"]["o"][0]["b"] if r["continues"]["o"] else None
+            if got != want:
+                msg = "after %s + set_continues %s continues() is %s, expected %s" % (c["ctor"], c["ops"], got, want)
+            elif bool(r["params"]["o"]) != (c["ctor"] != "new_none"):
+                msg = "parameters() of a built reply is not what it was made of"
+            elif r.get("enc"):
+                value = {"r": [r["params"], {"o": [] if want is None else [{"b": want}]}]}
+                msg = check_reply_encoding(value, r["enc"])
+        if msg is None and r.get("enc") is not None and r.get("wire") != r["enc"] + "\0":
+            ck.violation("the connection writes something else than serde_json's encoding of a built value: %r" % (r.get("wire"),),
+                         {"case": pub(c), "impl": r}, tag="bwire%d" % c["id"], no_input=True)
+        if msg is None and r.get("enc") is not None:
+            first = images.setdefault(logical, (r["enc"], c))
+            if first[0] != r["enc"]:
+                msg = "two ways of building the same logical value encode differently: %s (%s %s) vs %s (%s %s)" % (
+                    first[0][:80], first[1]["ctor"], first[1]["ops"], r["enc"][:80], c["ctor"], c["ops"])
+        if msg:
+            ck.violation("built %s: %s" % ("call" if c["op"] == "build_call" else "reply", msg),
+                         {"case": pub(c), "impl": r}, tag="b%d" % c["id"])
+    return n, len(images)
+
+
 # ------------------------------------------------------------------------------------------------
 # schema of the encodings (what the property says, checked on the encoded text)
 def variant_table(shape_owner, idx):
@@ -277,8 +405,15 @@ def main():
     if ck.replay:
         rp = json.load(open(ck.replay))
         cases = []
+        bcases = []
         for c in ([rp["case"]] if "case" in rp else []) + rp.get("cases", []):
             c = dict(c)
+            if c["op"].startswith("build_"):
+                c["tree"] = eg.ABSENT if c["frame"] is None else eg.jparse(c["frame"])
+                c["ops"] = [tuple(o) if isinstance(o, list) else o for o in c["ops"]]
+                c["id"] = 1000000 + len(bcases)
+                bcases.append(c)
+                continue
             c["tree"] = eg.jparse(c["frame"])
             c["id"] = len(cases)
             if "spell" in c:
@@ -286,13 +421,18 @@ def main():
             cases.append(c)
     else:
         cases = gen_cases(ck)
+        bcases = gen_build_cases(ck)
+        for c in bcases:
+            c["ops"] = [tuple(o) if isinstance(o, list) else o for o in c["ops"]]
 
     ok, log = ck.harness_build(["envelope"])
     if not ok:
         ck.violation("harness does not build against /repo", {"log": log[-3000:]}, tag="build", no_input=True)
         ck.finish()
     results = eg.harness_results(ck, cases)
+    bresults = eg.harness_results(ck, bcases)
     ck.ran_correspondence = True
+    n_built, n_logical = check_built(ck, bcases, bresults)
 
     # ---- second pass: decode what was encoded (round trip on the implementation)
     second, origin = [], {}
@@ -467,13 +607,13 @@ def main():
             model = ck.coq_show(eg.HEADER, "%s (%s)" % (show, render(c, r)))
             if spec:
                 n_spec += 1
-                ck.violation("%s differs from what the property prescribes: %s" % (what, c["frame"][:120]),
+                ck.violation("%s differs from what the property prescribes: %s" % (what, cf(c)[:140]),
                              {"case": pub(c), "impl": r, "model_spec": model, "code": code}, tag="s%d" % c["id"])
             else:
                 n_model += 1
                 names = {1: "decoding differs from the model", 8: "the connection-level receive differs from serde_json::from_str",
                          16: "a directly decoded alternative differs from the model", 32: "an encoding differs from the model"}
-                ck.violation("; ".join(v for k, v in names.items() if code & k) + ": " + c["frame"][:100],
+                ck.violation("; ".join(v for k, v in names.items() if code & k) + ": " + cf(c)[:140],
                              {"case": pub(c), "impl": r, "model_spec": model, "code": code,
                               "correspondence": "Shapes/Envelope.v vs serde_json::{from_str,to_string} of Call/Reply/error enums"},
                              tag="m%d" % c["id"], no_input=True)
@@ -481,6 +621,15 @@ def main():
     evaluate("reply", buckets["reply"], eg.render_rcase, "check_reply", "show_reply", "the classification of a reply")
     evaluate("call", buckets["call"], eg.render_ccase, "check_call", "show_call", "the decoded call")
     evaluate("proxy", buckets["proxy"], eg.render_pcase, "check_proxy", "show_proxy", "the result of a proxy method")
+
+    bb = {"build_call": [], "build_reply": []}
+    for c, r in zip(bcases, bresults):
+        if not (r.get("panic") or r.get("crash")):
+            bb[c["op"]].append((c, r))
+    evaluate("build_call", bb["build_call"], eg.render_bccase, "check_build_call", "show_build_call",
+             "a call made with the constructors and setters")
+    evaluate("build_reply", bb["build_reply"], eg.render_brcase, "check_build_reply", "show_build_reply",
+             "a reply made with the constructors and set_continues")
 
     # ---- coverage
     hist, nontriv = {}, set()
@@ -495,10 +644,12 @@ def main():
             fs = "".join("1" if r["dec"]["v"]["r"][i + 1]["b"] else "0" for i in range(3))
             flagsets[fs] = flagsets.get(fs, 0) + 1
     ck.cov.update({
-        "evaluations": len(allc), "distinct_nontrivial": len(nontriv),
+        "evaluations": len(allc) + len(bcases), "distinct_nontrivial": len(nontriv),
         "traces_validated_against_impl": sum(len(v) for v in buckets.values()),
         "case_classes": hist, "decoded_calls_by_flag_set(oneway,more,upgrade)": flagsets,
         "round_trips_checked": n_rt, "encodings_checked_against_schema": n_schema,
+        "built_values(constructor x setter order)": n_built, "distinct_logical_values_built": n_logical,
+        "build_cases": {"build_call": len(bb["build_call"]), "build_reply": len(bb["build_reply"])},
         "from_value_and_from_reader_decodes_compared_with_from_str": n_paths,
         "frames_with_escaped_member_names": sum(1 for c, _ in allc if "names" in c["tags"]),
         "permutation_groups": n_perm_groups, "no_parameters_spelling_groups": n_spell_groups,
